@@ -163,6 +163,15 @@ func genL2(r *rng.R, g *qgen.G, seeds []string) (*l2Case, bool) {
 		if t == "MS" && !strings.Contains(q, "(*)") == false {
 			q = "INSERT INTO t (k, id) VALUES ($MS.*)"
 		}
+		// standalone inputs textually before and after the insert form (numbering is shared)
+		switch r.Intn(6) {
+		case 0:
+			q = "WITH n(x) AS (SELECT $Person.name) " + q
+		case 1:
+			q = "WITH n(x, y) AS (SELECT $Address.id, $Address.street) " + q + " RETURNING $Address.district"
+		case 2:
+			q = q + " ON CONFLICT (id) DO UPDATE SET name = $Person.name"
+		}
 	case r.Chance(3, 4):
 		q = g.Skeleton()
 	default:
